@@ -312,7 +312,18 @@ def bfs(rec, cls, w, widths, tmp):
     seen = {m.key(): ()}
     frontier = collections.deque([((), m.model)])
     unjudged = 0
+    nviol = 0
+    # A conforming provider has at most (number of counts of every width) x (file variants) states; an implementation
+    # whose hidden state grows without bound (e.g. a call counter that is never reduced) would make this search
+    # infinite.  The search therefore stops - and says so in the evidence, it is not a verdict by itself - once it
+    # holds far more states than any conforming provider can have, or after a few violations (the first one is the
+    # shortest witness; exploring beyond violating transitions adds nothing).
+    cap = 64 * sum(1 << k for k in set(list(widths) + [w])) + 1024
     while frontier:
+        if len(seen) > cap or nviol >= 8:
+            rec.count("bfs_stopped_early(state-cap-or-violations)")
+            rec.outcome(f"bfs/{cls}/w={w}/stopped-early/states={len(seen)}/violations={nviol}")
+            break
         hist, model = frontier.popleft()
         for ev in events:
             if not _applicable(cls, model, ev):
@@ -324,6 +335,7 @@ def bfs(rec, cls, w, widths, tmp):
             rec.ops += 1
             if r:
                 rec.violation(_sig(r[0], cls, "bfs"), _hist_case(cls, w, h2), r[1], r[2])
+                nviol += 1
                 continue
             k = m.key()
             if k not in seen:
@@ -337,7 +349,7 @@ def bfs(rec, cls, w, widths, tmp):
     rec.outcome(f"bfs/{cls}/w={w}/widths={','.join(map(str, widths))}/states={len(seen)}")
     # every count of the widest counter must be a distinct state
     top = 1 << max(list(widths) + [w])
-    if len(seen) < top:
+    if len(seen) < top and nviol == 0:
         rec.violation(f"C19.count/{_clsname(cls)}/fewer-states-than-counts", {"kind": "bfs", "cls": cls, "w": w, "widths": list(widths)}, len(seen), top)
 
 
